@@ -17,7 +17,7 @@ def read_pyx(relpath):
     return src
 
 
-def load_pyx(relpath, overrides=None, encoded=None, transform=None, structs=None, src=None, name=None):
+def load_pyx(relpath, overrides=None, encoded=None, transform=None, structs=None, src=None, name=None, pre_ns=None):
     """-> namespace dict of the transliterated module.
     overrides: names rebound AFTER the module body ran (np facade, stubs, libc.math functions)"""
     if src is None:
@@ -26,6 +26,7 @@ def load_pyx(relpath, overrides=None, encoded=None, transform=None, structs=None
         src = transform(src)
     py = T.translate(src, structs=structs)
     ns = {'__name__': 'cyx_' + (name or os.path.basename(relpath).replace('.', '_')), '__package__': 'pyiga'}
+    if pre_ns: ns.update(pre_ns)      # names that must exist while the module body runs (e.g. base classes of generated assemblers)
     code = compile(py, '<cyx:%s>' % relpath, 'exec')
     exec(code, ns)
     if overrides:
